@@ -29,6 +29,8 @@ GROW_SHRINK = [
     "x=1", "x = 1\n", "def f():\n    return None\n", "a='a'\nb='a'\n", "import a\nimport b\n", "if x:\n    pass\n", "x:int\n", "def f(a:int):pass",
     "class A(object):pass\n", "'''doc'''\n", "x=0xffffffffff\n", "x=1099511627775\n", "x=1e22\n", "x=1.0e22\n", "print('h\u00e9llo')\n", "x='\u00e9'\n", "\u00e9=1\n",
     "x = '\U0001f600'\n", "x=(1,\n2)\n", "x = [\n 1,\n 2,\n]\n", "def long_name(argument):\n    return argument+argument\n", "raise ValueError()\n",
+    "1if 1else 1", "True if 0in x else False", "x=1if 1else'\u00e9\u00e9'", "1if 1else'\u00e9\u00e9\u00e9'", "x='" + '\u00e9' * 40 + "'\n", "print('" + '\u00fc\u00e9' * 30 + "')",
+    "x=[1for a in b]", "x=0or 1\n",
     "for i in range(10):\n    print(i)\n", "x=f'{a}'\n", "x=f'{a!r:>10}'", "lambda:0", "0", "pass", "...", "x=1;y=2", "if 1:\n\tpass\nelse:\n\tpass",
 ]
 ENCODINGS = [('utf-8', ''), ('utf-8-sig', ''), ('latin-1', '# -*- coding: latin-1 -*-\n'), ('cp1252', '# coding: cp1252\n'), ('shift_jis', '# coding=shift_jis\n'),
